@@ -25,4 +25,11 @@ a, b = "<!-- SEEDED-TABLE-BEGIN -->", "<!-- SEEDED-TABLE-END -->"
 if a in s:
     s = s[: s.index(a) + len(a)] + "\n" + table + s[s.index(b):]
     open(p, "w").write(s)
-print(table)
+import subprocess
+stats = subprocess.run(["/verif/tools/seed_stats.py"], stdout=subprocess.PIPE, text=True).stdout
+s = open(p).read()
+a2, b2 = "<!-- SEED-STATS-BEGIN -->", "<!-- SEED-STATS-END -->"
+if a2 in s:
+    s = s[: s.index(a2) + len(a2)] + "\n" + stats + s[s.index(b2):]
+    open(p, "w").write(s)
+print(table[:2000])
